@@ -150,6 +150,7 @@ func init() {
 			fd := funcDecl(f.recv, f.name)
 			if fd == nil {
 				fail("function %s", f.name)
+				c07List(w, f.lean, nil)
 				continue
 			}
 			c07List(w, f.lean, c07Guards(fd))
@@ -176,6 +177,7 @@ func init() {
 			fmt.Fprintf(w, "def digitLo : Nat := %d\ndef digitHi : Nat := %d\n", classes[2][0], classes[2][1])
 		} else {
 			fail("adjustFormulaOperand: range loop with the three character-class guards ($, letters, digits)")
+			w.WriteString("def dollar : Nat := 36\ndef upperLo : Nat := 65\ndef upperHi : Nat := 90\ndef lowerLo : Nat := 97\ndef lowerHi : Nat := 122\ndef digitLo : Nat := 48\ndef digitHi : Nat := 57\n")
 		}
 		// the sheet separator of strings.Split(token.TValue, "!") and the part count of `len(tokens) == 2`
 		sep, parts := "", ""
@@ -204,6 +206,7 @@ func init() {
 			fmt.Fprintf(w, "def sheetSep : Nat := %d\ndef sheetParts : Nat := %s\n", sep[0], parts)
 		} else {
 			fail("adjustFormulaOperand: strings.Split(token.TValue, \"!\") and len(tokens) == 2")
+			w.WriteString("def sheetSep : Nat := 33\ndef sheetParts : Nat := 2\n")
 		}
 		// floor constants: `if X += offset; X < k { X = k' }`
 		for _, f := range []fn{{"", "adjustFormulaColumnName", "col"}, {"", "adjustFormulaRowNumber", "row"}} {
@@ -212,12 +215,11 @@ func init() {
 			if fd != nil {
 				ast.Inspect(fd.Body, func(n ast.Node) bool {
 					s, ok := n.(*ast.IfStmt)
-					if !ok || s.Init == nil || found {
+					if !ok || found {
 						return true
 					}
-					as, ok1 := s.Init.(*ast.AssignStmt)
 					be, ok2 := s.Cond.(*ast.BinaryExpr)
-					if !ok1 || !ok2 || as.Tok != token.ADD_ASSIGN || be.Op != token.LSS || len(s.Body.List) != 1 {
+					if !ok2 || be.Op != token.LSS || len(s.Body.List) != 1 {
 						return true
 					}
 					set, ok3 := s.Body.List[0].(*ast.AssignStmt)
@@ -236,6 +238,8 @@ func init() {
 			}
 			if !found {
 				fail("%s: `if x += offset; x < 1 { x = 1 }`", f.name)
+				// keep the model compilable (the failure above already fails the check)
+				fmt.Fprintf(w, "def %sFloor : Int := 1\ndef %sFloorSet : Int := 1\n", f.lean, f.lean)
 			}
 		}
 		// text re-quoting: efp.QuoteDouble
@@ -253,12 +257,14 @@ func init() {
 			fmt.Fprintf(w, "def textQuote : Nat := %s\n", v)
 		} else {
 			fail("adjustFormulaRef: text operands re-quoted with efp.QuoteDouble and doubled embedded quotes")
+			w.WriteString("def textQuote : Nat := 34\n")
 		}
 		// sheet-name quoting: "'" + strings.ReplaceAll(name, "'", "''") + "'"
 		if fd := funcDecl("", "escapeSheetName"); fd != nil && strings.Contains(src(fd.Body), `"'" + strings.ReplaceAll(name, "'", "''") + "'"`) {
 			fmt.Fprintf(w, "def sheetQuote : Nat := 39\n")
 		} else {
 			fail("escapeSheetName: quoting with single quotes and doubled embedded quotes")
+			w.WriteString("def sheetQuote : Nat := 39\n")
 		}
 	})
 }
